@@ -22,7 +22,11 @@ type refTables struct {
 	b2uRows, u2bRows     int
 	b2uWF, u2bWF, isASCII bool
 	hdrB, hdrU            bool // the first line of the file is NOT a data row (the loader drops line 1 whatever it is)
+	dropB, dropU          int  // rows by content that are not rows by the loader's rule (exactly two ' '-fields)
 }
+
+// lastDropped: rows by content of the file parsed last that the loader's accept rule skips.
+var lastDropped int
 
 func parseRef(path string) (rows [][2]uint16, ascii, firstIsRow bool, err error) {
 	f, err := os.Open(path)
@@ -36,6 +40,7 @@ func parseRef(path string) (rows [][2]uint16, ascii, firstIsRow bool, err error)
 // parseRefFrom reads a table the way a reader of the DATA does: every line of the shape `0xHHHH 0xHHHH` is a row,
 // wherever it stands; a header or comment is recognised by its content, not by its position.
 func parseRefFrom(f io.Reader) (rows [][2]uint16, ascii, firstIsRow bool, err error) {
+	lastDropped = 0
 	ascii = true
 	sc := bufio.NewScanner(f)
 	n := 0
@@ -47,8 +52,10 @@ func parseRefFrom(f io.Reader) (rows [][2]uint16, ascii, firstIsRow bool, err er
 				ascii = false
 			}
 		}
-		fs := strings.Split(strings.TrimRight(string(line), "\r"), " ")
-		if len(fs) != 2 || !strings.HasPrefix(fs[0], "0x") || !strings.HasPrefix(fs[1], "0x") {
+		// a row by CONTENT: the first two blank-separated fields are 0xHHHH 0xHHHH — whatever follows (inline comment,
+		// trailing blanks); a header or comment line has no such fields
+		fs := strings.Fields(string(line))
+		if len(fs) < 2 || !strings.HasPrefix(fs[0], "0x") || !strings.HasPrefix(fs[1], "0x") {
 			continue
 		}
 		a, e1 := strconv.ParseUint(fs[0][2:], 16, 16)
@@ -60,6 +67,9 @@ func parseRefFrom(f io.Reader) (rows [][2]uint16, ascii, firstIsRow bool, err er
 		if n == 1 {
 			firstIsRow = true
 		}
+		if len(strings.Split(string(line), " ")) != 2 {
+			lastDropped++ // the loader's rule (exactly two pieces at ' ') skips this row
+		}
 	}
 	return rows, ascii, firstIsRow, sc.Err()
 }
@@ -69,12 +79,15 @@ func loadRef(pb, pu string) (*refTables, error) {
 	if err != nil {
 		return nil, err
 	}
+	dB := lastDropped
 	ru, a2, f2, err := parseRef(pu)
 	if err != nil {
 		return nil, err
 	}
+	dU := lastDropped
 	t := buildRef(rb, ru, a1 && a2)
 	t.hdrB, t.hdrU = !f1, !f2
+	t.dropB, t.dropU = dB, dU
 	return t, nil
 }
 
@@ -109,7 +122,7 @@ func buildRef(rb, ru [][2]uint16, ascii bool) *refTables {
 // wfLine: the answer to the `wf` op, computed from the independent parse (the Lean driver computes
 // the same line with the modelled parser and the decidable WF predicate of the theorems).
 func (t *refTables) wfLine() string {
-	return fmt.Sprintf("wf b2u=%d/%d/%v u2b=%d/%d/%v ascii=%v hdr=%v/%v", t.b2uRows, len(t.b2u), t.b2uWF, t.u2bRows, len(t.u2b), t.u2bWF, t.isASCII, t.hdrB, t.hdrU)
+	return fmt.Sprintf("wf b2u=%d/%d/%v u2b=%d/%d/%v ascii=%v hdr=%v/%v dropped=%d/%d", t.b2uRows, len(t.b2u), t.b2uWF, t.u2bRows, len(t.u2b), t.u2bWF, t.isASCII, t.hdrB, t.hdrU, t.dropB, t.dropU)
 }
 
 // encGen: the (generalised: surrogates too) UTF-8 encoding of a BMP code point.
@@ -246,6 +259,9 @@ func judgeT(t *refTables, i int, line, out string) {
 	}
 	switch op {
 	case "wf":
+		if t.dropB > 0 || t.dropU > 0 {
+			run.Fail(i, "table:row-dropped", fmt.Sprintf("%d + %d lines of the table files are rows by content (0xHHHH 0xHHHH …) but not by the loader's rule (exactly two ' '-fields): silently missing from the maps: %s", t.dropB, t.dropU, out))
+		}
 		if !t.hdrB || !t.hdrU {
 			run.Fail(i, "table:first-line-is-a-row", "a table file starts with a data row, which the loader drops unconditionally (lines[1:]): "+out)
 		}
